@@ -151,6 +151,8 @@ def run(tier):
             "OptionsFlagWithoutBlock": ("Super", lambda e: e.update(flags=sorted(set(e["flags"]) ^ {"COMP_OPTS"}))),
             "LinkCountWrong": ("Inode", lambda e: e.update(nlink=e["nlink"] + 1) if e["type"] != "dir" else e.update(num=0)),
             "NotPadded": ("Super", lambda e: e.update(file_len_mod4k=123)),
+            "IndexListTooLong": ("IndexLayout", lambda e: e.update(xattr_exact=False)),
+            "IndexListNotAscending": ("IndexLayout", lambda e: e.update(id_ascending=False)),
             "TablesOutOfOrder": ("Super", lambda e: e.update(table_order=list(reversed(e["table_order"])))),
             "BasicInodeForLargeFile": ("Inode", lambda e: e.update(needs_ext=True, ext=False) if e["type"] == "file" else e.update(num=0))}
     mut_items = []
